@@ -292,4 +292,61 @@ Qed.
 Lemma range_pre_no_routine v a b : plain_rval mt a = true -> plain_rval mt b = true -> forallb not_routine (range_pre v a b) = true.
 Proof. intros Ha Hb. unfold range_pre. rewrite !forallb_app, (c_rval_lv_no_routine LV_FIRST a Ha), (c_rval_lv_no_routine LV_LAST b Hb). reflexivity. Qed.
 
+(* ---- the loop forms with an index variable, by what their preparation code establishes ---- *)
+Definition lv_val (lv : list (loopvar * value)) (k : loopvar) : value := match lv_get lv k with Some x => x | None => VNone end.
+Lemma lv_val_some lv k x : lv_val lv k = x -> x <> VNone -> lv_get lv k = Some x.
+Proof. unfold lv_val. destruct (lv_get lv k) as [y|]; intros H Hn; [rewrite H; reflexivity|symmetry in H; contradiction]. Qed.
+Lemma idx_next_incr ss v incr nv : idx_next ss v incr = Ok nv -> incr <> VNone.
+Proof.
+  unfold idx_next. destruct (pushable (lookup ss v)); cbn [bind]; [|discriminate]. destruct (pushable incr) as [b|] eqn:Eb; cbn [bind]; [|discriminate].
+  intros _. exact (proj2 (pushable_ok incr b Eb)).
+Qed.
+
+(* [idx_form l v pre]: the loop l has the index variable v; its code is LOOP; pre; test of the counter; the body; the count-down and the step
+   of v; END_LOOP; pre is what the reference semantics does before the first pass: it leaves the count in COUNTER, the increment in INCR
+   (not set = no value) and v assigned *)
+Definition idx_form (l : loop) (v : string) (pre : program) : Prop :=
+  (forall body, c_stmt rt mt false None (SRepeat l body) =
+     [I0 OC_LOOP] ++ pre ++ counter_test ++
+     [jump JC_IF_FALSE (len (c_stmt rt mt false (Some (len (counter_post (Some v)) + 1)) body ++ counter_post (Some v)) + 2)] ++
+     (c_stmt rt mt false (Some (len (counter_post (Some v)) + 1)) body ++ counter_post (Some v)) ++
+     [jump JC_ALWAYS (- (len counter_test + 1 + len (c_stmt rt mt false (Some (len (counter_post (Some v)) + 1)) body ++ counter_post (Some v))))] ++ [I0 OC_END_LOOP]) /\
+  forallb not_routine pre = true /\
+  (forall f ss body sig ss' im s d r,
+     Sem.exec rt mt (S (S f)) false ss (SRepeat l body) = ROk sig ss' -> sim ss s -> m_frames s = FLoop [] d :: r -> code_at im (m_pc s) pre ->
+     exists cnt incr s1 n s' lv' r',
+       iterate rt mt f false s1 None (Some cnt) (Some (v, incr)) None body = ROk sig ss' /\ s_trace s1 = s_trace ss /\
+       esteps n im s = Some (s', []) /\ sim s1 s' /\ m_pc s' = m_pc s + zlength pre /\ m_frames s' = FLoop lv' d :: r' /\ erase r' = erase r /\
+       m_stack s' = m_stack s /\ lv_get lv' LV_COUNTER = Some cnt /\ lv_val lv' LV_INCR = incr).
+
+Lemma c_idx_range v a b body : c_stmt rt mt false None (SRepeat (LRange v a b) body) =
+  [I0 OC_LOOP] ++ range_pre v a b ++ counter_test ++
+  [jump JC_IF_FALSE (len (c_stmt rt mt false (Some (len (counter_post (Some v)) + 1)) body ++ counter_post (Some v)) + 2)] ++
+  (c_stmt rt mt false (Some (len (counter_post (Some v)) + 1)) body ++ counter_post (Some v)) ++
+  [jump JC_ALWAYS (- (len counter_test + 1 + len (c_stmt rt mt false (Some (len (counter_post (Some v)) + 1)) body ++ counter_post (Some v))))] ++ [I0 OC_END_LOOP].
+Proof. reflexivity. Qed.
+Lemma exec_range f ss v a b body : Sem.exec rt mt (S (S f)) false ss (SRepeat (LRange v a b) body) =
+  (let* (x, s1) := eval_rval rt mt f false ss a in
+   let* (y, s2) := eval_rval rt mt f false s1 b in
+   match range_calc x y with
+   | Ok (cnt, incr) => iterate rt mt f false (assign s2 v x) None (Some cnt) (Some (v, incr)) None body
+   | Err e => RErr e s2
+   end).
+Proof. reflexivity. Qed.
+
+Lemma range_idx_form v a b : plain_rval mt a = true -> plain_rval mt b = true -> idx_form (LRange v a b) v (range_pre v a b).
+Proof.
+  intros Ha Hb. split; [intros body; apply c_idx_range|]. split; [apply range_pre_no_routine; assumption|].
+  intros f ss body sig ss' im s d r He Hsim Hfr Hc. rewrite exec_range in He.
+  destruct (eval_rval rt mt f false ss a) as [x sa|e sa|sa] eqn:Ev1; cbn [sbind] in He; try discriminate.
+  destruct (eval_rval rt mt f false sa b) as [y sb|e sb|sb] eqn:Ev2; cbn [sbind] in He; try discriminate.
+  destruct (range_calc x y) as [[cnt incr]|e] eqn:Ecalc; [|discriminate].
+  destruct (range_prep v a b Ha Hb im ss s x y sa sb cnt incr f [] d r Hsim Hfr Hc Ev1 Ev2 Ecalc)
+    as (Hsa & Hsb & n & s' & lv' & r' & En & Hs' & Hpc & Hfr' & Her & Hsk & HlC & HlI). subst sa sb.
+  exists cnt, incr, (assign ss v x), n, s', lv', r'.
+  split; [exact He|]. split; [exact (proj2 (proj2 (assign_other_fields ss v x)))|].
+  split; [exact En|]. split; [exact Hs'|]. split; [exact Hpc|]. split; [exact Hfr'|]. split; [exact Her|]. split; [exact Hsk|].
+  split; [exact HlC|]. unfold lv_val. rewrite HlI. reflexivity.
+Qed.
+
 End Range.
